@@ -518,7 +518,19 @@ pub fn gen_scenario(r: &mut Rng, o: &GenOpts) -> Scenario {
                 }
                 // leaves end right after their verdict: no epilogue (it would disturb the stack)
             }
-            progs.push(prog(&ops));
+            let mut program = prog(&ops);
+            // (only programs without a post-read opcode byte anywhere: what the effect scan makes of malformed
+            // bytecode is not specified)
+            if r.chance(o.p_fail * 0.25) && !program.0.iter().any(|b| *b == 0x82 || *b == 0x83) {
+                // bytecode that does not parse: an undefined opcode at the end, or a final Push cut short
+                // (the node fails before any of its operations runs; nothing of it may be evaluated)
+                if r.chance(0.5) {
+                    program.0.push(*r.pick(&[0x00u8, 0xff, 0x32]));
+                } else {
+                    program.0.extend([0x01, 0x00, 0x00, 0x07]);
+                }
+            }
+            progs.push(program);
             ids.push(abs);
         }
         let mut pred = Predicate {
